@@ -444,9 +444,10 @@ def _run_main(prog, tier):
     obs.append(struct_ob("endpoints-are-samples", construct + "[every-draw-kept]", not dropped,
                          "the working copy must keep every draw of the sample: " + "; ".join(f"line {l}: `{t}` selects rows" for l, t in dropped[:2])
                          + " - the interval is then the shortest window of another sample", REL, dropped[0][0] if dropped else fn.lineno, tier="F"))
+    deferred_undecided = None
     if undecided and not dropped:
-        raise AnalysisError(f"endpoints-are-samples: the re-definition `{undecided[0][1]}` (line {undecided[0][0]}) of the working copy is not a "
-                            f"recognised row-preserving form - not decided")
+        deferred_undecided = (f"endpoints-are-samples: the re-definition `{undecided[0][1]}` (line {undecided[0][0]}) of the working copy is not a "
+                              f"recognised row-preserving form - not decided")
     post = []
     last_store = max([s_.lineno for s_ in stores] or [0])
     for st_ in ast.walk(fn):
@@ -486,6 +487,8 @@ def _run_main(prog, tier):
     from .common import call_order_obligations
     obs.extend(call_order_obligations(prog, "arguments-in-order", ['inference/pdf/hdi.py']))
 
+    if deferred_undecided and all(o.ok for o in obs):
+        raise AnalysisError(deferred_undecided)        # (a definite violation found by another rule stands; only a clean sheet is withheld)
     meta = {
         "explanation": "Ownership analysis of sample_hdi (copy before resize/sort; a removed copy is reported), normal-form "
                        "equality of the window offset L = int(fraction*n) and of the two slice bounds of the width computation "
